@@ -144,19 +144,25 @@ def ipk(wd, rng, page_size=1024, rows=800, tag="ipk"):
 def overflow(wd, rng, page_size=512, tag="ovf"):
     path = os.path.join(wd, "%s-%d.db" % (tag, page_size))
     c = _mk(path, page_size)
-    c.execute("CREATE TABLE o(k TEXT, v)")
+    c.execute("CREATE TABLE o(k TEXT, v, a)")
     c.execute("CREATE INDEX o_k ON o(k)")
+    # entries whose first column is stored in the page and whose second, deciding, column continues in overflow pages
+    c.execute("CREATE INDEX o_ak ON o(a, k)")
     c.execute("BEGIN")
     u = page_size
     for i, l in enumerate([0, 10, u - 40, u - 35, u - 30, u, 2 * u, 3 * u + 17, 10 * u, 40 * u + 3]):
-        c.execute("INSERT INTO o VALUES(?,?)", ("key%03d" % i + "k" * (l // 2), bytes([(i + j) % 251 for j in range(l)])))
+        c.execute("INSERT INTO o VALUES(?,?,?)", ("key%03d" % i + "k" * (l // 2), bytes([(i + j) % 251 for j in range(l)]), i % 3))
+    # long texts that share a long prefix and differ only near the end (beyond what an index cell keeps in the page)
+    for i in range(12):
+        c.execute("INSERT INTO o VALUES(?,?,?)", ("same" + "s" * (u // 2) + "%02d" % i, i, i % 2))
     for i in range(60):
-        c.execute("INSERT INTO o VALUES(?,?)", ("dup" + "z" * 150, i))
+        c.execute("INSERT INTO o VALUES(?,?,?)", ("dup" + "z" * 150, i, i % 2))
     c.execute("COMMIT")
     c.close()
     db = DB(path, page_size, tag)
-    db.tables["o"] = dict(kind="rowid", cols=["k", "v"])
+    db.tables["o"] = dict(kind="rowid", cols=["k", "v", "a"])
     db.indexes["o_k"] = dict(table="o", cols=[("k", "", False)])
+    db.indexes["o_ak"] = dict(table="o", cols=[("a", "", False), ("k", "", False)])
     db.refresh()
     return db
 
